@@ -53,6 +53,9 @@ var Catalogue = []ReSpec{
 	{`(x(y)?){2}`, []string{"xx", "xyx", "xyxy"}, []string{"x", "xyy"}},
 	{`(a)*(b)+(c)?`, []string{"b", "aabbc", "bc"}, []string{"a", "c", ""}},
 	{`[a-z]+(-[0-9]+)?`, []string{"ab", "ab-12"}, []string{"-12", "ab-"}},
+	{`((ab|cd))`, []string{"ab", "cd"}, []string{"a", "abcd"}},
+	{`(((x)))y`, []string{"xy"}, []string{"x", "y"}},
+	{`((a)|(b))+`, []string{"a", "ab", "bba"}, []string{"", "c"}},
 }
 
 // Idents are static literals; they include every regex-active identifier
@@ -256,6 +259,9 @@ func InstSeg(r *rand.Rand, s *rmodel.Segment, final bool) []string {
 		n := 1 + r.Intn(3)
 		if r.Intn(6) == 0 {
 			n = 4
+		}
+		if r.Intn(300) == 0 {
+			n = []int{126, 127, 128, 129, 255, 256, 257, 300}[r.Intn(8)] // spans around integer-width boundaries
 		}
 		out := make([]string, n)
 		for i := range out {
